@@ -52,7 +52,9 @@ def run(ctx):
     # and every item is buffered (how exactly the cut is made is C06's business)
     _RR2.bounded_selection(_Only(ctx, ("ctor-roles", "every-item-buffered", "anchor")), "R06.a")
     _RR2.limit_provenance(ctx, "R06.a")
-    return info("R06.a: the bounded selection keeps `limit` items at full width (a store no larger than the limit loses no hit to the cut). R04.n: the word-to-word alternative of text_match calls word_match on every path (no pre-test in front of the gates). R04.m: a hit with one matched word for a one-word query passes hit_matches whatever the match looks like (abstract run). R04.l: add_record really adds the record to the addressed store on every call (the registry API is not exercised by the repository's tests). Necessary constants for single-typo tolerance at the n=5 worst cases: length gate accepts 1-5/6, "
+    from . import r_trigram as _RT4
+    _RT4.unfinished_prefix_clip(ctx, "R04.o")
+    return info("R04.o: for an unfinished query word the Jaccard gate compares the WHOLE query word with the record prefix of min(query length + 1, record length). R06.a: the bounded selection keeps `limit` items at full width (a store no larger than the limit loses no hit to the cut). R04.n: the word-to-word alternative of text_match calls word_match on every path (no pre-test in front of the gates). R04.m: a hit with one matched word for a one-word query passes hit_matches whatever the match looks like (abstract run). R04.l: add_record really adds the record to the addressed store on every call (the registry API is not exercised by the repository's tests). Necessary constants for single-typo tolerance at the n=5 worst cases: length gate accepts 1-5/6, "
                 "Jaccard gate accepts 1/2, the DL gate accepts c/5 for every edit-cost constant c, every cost <= 1.0, "
                 "gate shapes (1-min/max, dist/max) are confirmed before the bounds are applied, and the prefix-pair "
                 "tolerance admits a length difference of one.")
